@@ -24,34 +24,40 @@ fn check(id: &str, tier: Tier) -> i32 {
             let nmem = match tier { Tier::Quick => 40_000usize, Tier::Thorough => 2_000_000 };
             let seed = ctx.seed;
             let threads = ctx.threads;
-            run_check(&props::c13::C13, &ctx, &[("histories", n)], move |cov, assume| {
-                props::c13::memory_stratum(seed, nmem, threads, cov, assume)
+            run_check(&props::c13::C13, &ctx, &[("histories", n)], move |cov, assume, xs| {
+                props::c13::memory_stratum(seed, nmem, threads, cov, assume, xs)
             }).exit
+        }
+        "C17" => {
+            let n = ctx.runs(3_000, 300_000);
+            let seed = ctx.seed;
+            let threads = ctx.threads;
+            run_check(&props::c17::C17, &ctx, &[], move |cov, assume, xs| props::c17::strata(seed, n, threads, cov, assume, xs)).exit
         }
         "C06" => {
             let n = ctx.runs(1_500, 45_000);
             let threads = ctx.threads;
             let kf = framework::load_known_findings(&ctx.verif_dir);
             let open: Vec<framework::Finding> = kf.findings.iter().filter(|f| f.property == "C06" && f.status == "open").cloned().collect();
-            run_check(&props::c06::C06, &ctx, &[("programs", n)], move |cov, _| props::c06::process_stratum(threads, &open, cov)).exit
+            run_check(&props::c06::C06, &ctx, &[("programs", n)], move |cov, _, xs| props::c06::process_stratum(threads, &open, cov, xs)).exit
         }
         "C19" => {
             let n = ctx.runs(3_000, 200_000);
-            run_check(&props::c19::C19, &ctx, &[("programs", n)], |_, _| Vec::new()).exit
+            run_check(&props::c19::C19, &ctx, &[("programs", n)], |_, _, _| Vec::new()).exit
         }
         "C09" => {
             let n = ctx.runs(3_000, 150_000);
-            run_check(&props::c09::C09, &ctx, &[("graphs", n)], |_, _| Vec::new()).exit
+            run_check(&props::c09::C09, &ctx, &[("graphs", n)], |_, _, _| Vec::new()).exit
         }
         "C08" => {
             let n = ctx.runs(20_000, 2_000_000);
-            run_check(&props::c08::C08, &ctx, &[("histories", n)], |_, _| Vec::new()).exit
+            run_check(&props::c08::C08, &ctx, &[("histories", n)], |_, _, _| Vec::new()).exit
         }
         "C12" => {
             let n = ctx.runs(3_000, 200_000);
             let np = match tier { Tier::Quick => 300usize, Tier::Thorough => 3000 };
             let seed = ctx.seed;
-            run_check(&props::c12::C12, &ctx, &[("scenarios", n)], move |cov, _assume| {
+            run_check(&props::c12::C12, &ctx, &[("scenarios", n)], move |cov, _assume, _xs| {
                 // (d) process restarts: same seeds in fresh processes, ASLR on, heap shifted
                 let exe = std::env::current_exe().unwrap_or_default();
                 let mut outs: Vec<String> = Vec::new();
@@ -91,19 +97,19 @@ fn check(id: &str, tier: Tier) -> i32 {
         }
         "C14" => {
             let n = ctx.runs(4_000, 200_000);
-            run_check(&props::c14::C14, &ctx, &[("programs", n)], |_, _| Vec::new()).exit
+            run_check(&props::c14::C14, &ctx, &[("programs", n)], |_, _, _| Vec::new()).exit
         }
         "C11" => {
             let n = ctx.runs(1_500, 40_000);
-            run_check(&props::c11::C11, &ctx, &[("histories", n)], |_, _| Vec::new()).exit
+            run_check(&props::c11::C11, &ctx, &[("histories", n)], |_, _, _| Vec::new()).exit
         }
         "C07" => {
             let n = ctx.runs(4_000, 250_000);
-            run_check(&props::c07::C07, &ctx, &[("programs", n)], |_, _| Vec::new()).exit
+            run_check(&props::c07::C07, &ctx, &[("programs", n)], |_, _, _| Vec::new()).exit
         }
         "C02" => {
             let n = ctx.runs(3_000, 300_000);
-            run_check(&props::c02::C02, &ctx, &[("programs", n)], |_, _| Vec::new()).exit
+            run_check(&props::c02::C02, &ctx, &[("programs", n)], |_, _, _| Vec::new()).exit
         }
         _ => {
             eprintln!("HARNESS-ERROR: unknown or not-applicable property {}", id);
@@ -139,6 +145,7 @@ fn replay(path: &Path) -> i32 {
         "C09" => replay_main(&props::c09::C09, path),
         "C19" => replay_main(&props::c19::C19, path),
         "C06" => replay_main(&props::c06::C06, path),
+        "C17" => replay_main(&props::c17::C17, path),
         _ => {
             eprintln!("HARNESS-ERROR: replay file names unknown property {:?}", prop);
             2
@@ -148,7 +155,9 @@ fn replay(path: &Path) -> i32 {
 
 fn main() {
     // Panics inside tsrun are observations, not crashes of the harness: keep the default hook quiet.
-    std::panic::set_hook(Box::new(|_| {}));
+    if std::env::var("TSIM_PANIC_VERBOSE").is_err() {
+        std::panic::set_hook(Box::new(|_| {}));
+    }
     let args: Vec<String> = std::env::args().collect();
     let code = match args.get(1).map(|s| s.as_str()) {
         Some("check") => {
@@ -256,6 +265,14 @@ fn main() {
             props::c06::proc_worker(&name, param, stack);
             0
         }
+        Some("c17-worker") => {
+            let seed: u64 = args.get(2).and_then(|s| s.parse().ok()).unwrap_or(1);
+            let from: usize = args.get(3).and_then(|s| s.parse().ok()).unwrap_or(0);
+            let to: usize = args.get(4).and_then(|s| s.parse().ok()).unwrap_or(0);
+            props::c17::worker(seed, from, to);
+            0
+        }
+        Some("c17-exec-one") => props::c17::exec_one_from_stdin(),
         Some("c13-worker") => {
             // worker side of the memory stratum: seed, from, to
             let seed: u64 = args.get(2).and_then(|s| s.parse().ok()).unwrap_or(1);
